@@ -15,6 +15,7 @@ another hash seed, golden names), distinctness of names for distinct long ids sh
 """
 from __future__ import annotations
 
+import asyncio
 import base64
 import copy
 import hashlib
@@ -118,6 +119,9 @@ THEOREMS = [
     ("Kopf.Props.C16", "Kopf.C16.restore_after_purge_ann"),
     ("Kopf.Props.C16", "Kopf.C16.restore_after_store_ann"),
     ("Kopf.Props.C16", "Kopf.C16.store_skip_unchanged_witness"),
+    ("Kopf.Props.C16", "Kopf.C16.removeSuffix_append"),
+    ("Kopf.Props.C16", "Kopf.C16.listed_names_identical_instance"),
+    ("Kopf.Props.C16", "Kopf.C16.listed_rstrip_witness"),
     ("Kopf.Props.C16", "Kopf.C16.status_record_survives_other_purge"),
     ("Kopf.Props.C16", "Kopf.C16.status_record_survives_other_store"),
     ("Kopf.Props.C16", "Kopf.C16.touch_leaves_records"),
@@ -166,7 +170,10 @@ THEOREMS = [
     ("Kopf.Props.C16_Keys", "Kopf.C16.lambda_id_regression"),
     ("Kopf.Props.C16_Keys", "Kopf.C16.charset_witness"),
 ]
-RULE = ("scenario = storage configuration (Annotations/Status/Smart/Multi as TREES: nested and empty Multis, status-headed and annotation-headed, sent to the model as trees, prefix from default / "
+RULE = ("[sight histories: one object in a Kubernetes-like LIST/WATCH server, 2..3 operator lives of 1..3 steps (store A/B, purge, last-handled state 1/2, look), every body "
+        "made by kopf's real continuous_watch -> list_objs / watch_objs, 17 kinds (ReplicaSet x5, kinds ending in L/i/s/t, 'List', lower-case), owners deployment/both/other/none, "
+        "items with none/all/some own kinds, twins of the owning Deployment copied down; distinct = (shape, band, drs, kind, items_kind, path of sights)] "
+        "scenario = storage configuration (Annotations/Status/Smart/Multi as TREES: nested and empty Multis, status-headed and annotation-headed, sent to the model as trees, prefix from default / "
         "my-op.example.com / short / long-ish / 54..189 chars, v1 on/off, verbose, custom touch key / fields) x handler id over "
         "[A-Za-z0-9_./<>-]{1,300} (length bands around 63-|prefix|-1, 56, 63 with +-2, sub-handler paths, field suffixes, "
         "<locals> qualnames, special first/last characters (re-edged names since c2cffd8), the storages' own names, kopf's lambda ids) x record (unicode, nulls, partial, empty) x body "
@@ -199,6 +206,9 @@ TRUSTED = [
     "json.dumps/json.loads of CPython (the driver re-implements dumps; the theorems assume the round-trip law loads(dumps(x)) = x)",
     "the independent RFC 7386 merge in harness/props/c16.py stands for the API server's merge-patch",
     "Kubernetes qualified-name grammar as transcribed in the oracle (name part <= 63, [A-Za-z0-9]([-A-Za-z0-9_.]*[A-Za-z0-9])?; prefix a DNS subdomain <= 253)",
+    "sight histories: SightServer in harness/props/c16.py stands for the API server's LIST (kind & apiVersion named once for the list, '<Kind>List'; items of "
+    "typed lists carry none) and WATCH (events carry full objects); api.get / api.stream are replaced by it, everything from list_objs / watch_objs / "
+    "continuous_watch up to the storages is kopf's real code",
 ]
 ASSUMPTIONS = [
     "bodies have mapping-valued metadata / metadata.annotations (as the API guarantees: EssOK of clear_never_raises); status and spec may hold anything: "
@@ -2409,6 +2419,306 @@ def run_pool(ctx: Ctx, total: int, with_driver: bool, tagbase: str) -> None:
             fold(ctx, res)
 
 
+# =============================================================================================
+# sight histories: the bodies the storages get come from kopf's REAL producers — the listing every operator does when it starts
+# (`fetching.list_objs` through `watching.continuous_watch`) and the watch-stream (`watching.watch_objs`) — over a small
+# Kubernetes-like server: a list names its kind & apiVersion ONCE ("ReplicaSetList"), the items of typed lists carry none.
+# One object, several operator lives; records persisted at one sight must be found at every later one.
+# =============================================================================================
+SIGHT_KINDS = ["ReplicaSet", "ReplicaSet", "ReplicaSet", "ReplicaSet", "ReplicaSet", "Deployment", "Pod", "KopfExample", "Ingress",
+               "EndpointSlice", "StatefulSet", "TodoList", "List", "ReplicaSetList", "Replica", "replicaset", "t"]
+SIGHT_OPS = ["store-a", "store-b", "purge", "dstore-1", "dstore-2", "look"]
+
+
+def gen_sights(rng) -> dict:
+    while True:
+        spec, shape = gen_storage_spec(rng)
+        desc = expected_leaves(spec)
+        xann = [d for d in desc if d["t"] == "ann"]
+        if xann and any(d["t"] == "ann" or not d["nowrite"] for d in desc):
+            break
+    prefixes = [d["prefix"] for d in xann]
+    dspec = gen_dstorage_spec(rng, prefixes[0])
+    xdd = expected_dleaves(dspec)
+    own_ids = {"kopf-managed"} | {d["touch_key"] for d in xann} | {d["key"] for d in xdd if d["t"] == "ann"}
+    own_ids |= {x + "-ofDRS" for x in own_ids}
+    while True:
+        k, idshape, band = gen_id(rng, len(prefixes[0]))
+        if k.translate(SAFE_TABLE) not in {x.translate(SAFE_TABLE) for x in own_ids} and not k.endswith("-ofDRS"):
+            break
+    kind = rng.choice(SIGHT_KINDS)
+    owner = rng.choices(["deployment", "both", "other", "none"], weights=[60, 10, 15, 15])[0]
+    refs = {"deployment": [{"apiVersion": "apps/v1", "kind": "Deployment", "name": "d", "uid": "u"}],
+            "both": [{"apiVersion": "v1", "kind": "Job", "name": "j", "uid": "u"}, {"apiVersion": "apps/v1", "kind": "Deployment", "name": "d", "uid": "u"}],
+            "other": [{"apiVersion": "v1", "kind": "Job", "name": "j", "uid": "u"}], "none": None}[owner]
+    md: dict[str, Any] = {"name": "obj-" + ident(rng, 1, 5), "namespace": "ns", "uid": "uid-target", "resourceVersion": "100",
+                          "labels": {"app": "x"}, "annotations": {"example.com/note": rng.choice(UNI), "plain": "hands off"}}
+    if refs is not None:
+        md["ownerReferences"] = refs
+    body = {"apiVersion": "apps/v1", "kind": kind, "metadata": md, "spec": {"n": rng.randint(0, 5), "field": gen_value(rng)}}
+    if rng.random() < 0.5:
+        body["status"] = {"phase": "Running"}
+    flags = {"drs": kind == "ReplicaSet" and owner in ("deployment", "both"), "kind": kind}
+    if rng.random() < 0.7:
+        add_twins(rng, body, flags, k, desc, xdd)
+    recs = []
+    for _ in range(2):
+        rec = gen_full_record(rng)
+        recs.append([[kk, ("2020-01-01T00:00:0%d" % len(recs)) if kk == "started" else v] for kk, v in rec])
+    lives = []
+    for li in range(rng.choice([2, 2, 3])):
+        lives.append([rng.choice(SIGHT_OPS) for _ in range(rng.choice([1, 2, 2, 3]))])
+    if not any(op.startswith("store") for op in lives[0]):
+        lives[0][rng.randrange(len(lives[0]))] = "store-a"        # something is persisted in the first life
+    return {"storage": spec, "shape": shape, "dstorage": dspec, "id": k, "idshape": idshape, "band": band, "body": body, "flags": flags,
+            "records": recs, "essences": [sort_keys_deep({"spec": {"n": i, "field": gen_value(rng)}}) for i in (1, 2)],
+            "items_kind": rng.choices(["none", "all", "others-only", "target-only"], weights=[70, 10, 10, 10])[0],
+            "list_kind": rng.choices(["kind+List", "absent"], weights=[92, 8])[0],
+            "bystanders": rng.choice([0, 1, 2]), "lives": lives}
+
+
+class SightServer:
+    """What the operator talks to: LIST and WATCH of one resource (stands for `api.get` / `api.stream`)."""
+
+    def __init__(self, sc: dict) -> None:
+        self.sc = sc
+        self.obj = copy.deepcopy(sc["body"])
+        self.rv = 100
+        self.queue: list[dict] = []
+        self.lists: list[tuple[dict, list]] = []
+        self.by = []
+        for i in range(sc.get("bystanders", 0)):
+            b = copy.deepcopy(sc["body"])
+            b["metadata"].update({"name": "bystander-%d" % i, "uid": "uid-by-%d" % i})
+            b["metadata"].pop("ownerReferences", None)
+            self.by.append(b)
+
+    def apply(self, patch: dict) -> None:
+        self.rv += 1
+        self.obj = merge_patch(self.obj, patch)
+        self.obj.setdefault("metadata", {})["resourceVersion"] = str(self.rv)
+        self.queue.append({"type": "MODIFIED", "object": copy.deepcopy(self.obj)})
+
+    def list_response(self) -> dict:
+        mode = self.sc.get("items_kind", "none")
+        items = []
+        for o in self.by[:1] + [self.obj] + self.by[1:]:
+            item = copy.deepcopy(o)
+            target = item["metadata"]["uid"] == "uid-target"
+            if mode == "none" or (mode == "others-only" and target) or (mode == "target-only" and not target):
+                item.pop("kind", None)
+                item.pop("apiVersion", None)
+            items.append(item)
+        rsp: dict[str, Any] = {"metadata": {"resourceVersion": str(self.rv)}, "items": items}
+        if self.sc.get("list_kind", "kind+List") == "kind+List" or mode != "all":
+            rsp.update({"kind": self.obj["kind"] + "List", "apiVersion": self.obj["apiVersion"]})
+        return rsp
+
+    async def get(self, url: str, **_: Any) -> Any:
+        rsp = self.list_response()
+        self.lists.append((copy.deepcopy(rsp), rsp["items"]))     # (as sent, the very items kopf works on)
+        return rsp
+
+    async def stream(self, url: str, **_: Any) -> Any:
+        while self.queue:
+            yield self.queue.pop(0)
+
+
+async def sight_history(sc: dict, out: Out) -> None:
+    conventions, progress, diffbase, bodies, patches = _kopf()
+    from kopf._cogs.clients import watching
+    from kopf._cogs.configs import configuration
+    from kopf._cogs.structs import references
+    S = build_storage(sc["storage"])
+    D = build_dstorage(sc["dstorage"])
+    xdesc = expected_leaves(sc["storage"])
+    xann = [d for d in xdesc if d["t"] == "ann"]
+    xdann = [d for d in expected_dleaves(sc["dstorage"]) if d["t"] == "ann"]
+    ann_leaves = [l for l in leaves(S) if isinstance(l, progress.AnnotationsProgressStorage)]
+    k = sc["id"]
+    truth = sc["body"]          # the object as the cluster stores it: its kind and owners decide the names (property text: ReplicaSets owned by Deployments)
+    drs = truth["kind"] == "ReplicaSet" and any(o.get("kind") == "Deployment" for o in truth["metadata"].get("ownerReferences") or [])
+    mk = k + "-ofDRS" if drs else k
+    want_names = [[d["prefix"] + "/" + part for part in pinned_parts(mk, d["prefix"], d["v1"])] for d in xann]
+    own = {n for d in xann for x in (mk, d["touch_key"] + ("-ofDRS" if drs else ""), "kopf-managed")
+           for n in [d["prefix"] + "/" + part for part in pinned_parts(x, d["prefix"], True)]}
+    own |= {d["prefix"] + "/" + part for d in xdann for x in (d["key"] + ("-ofDRS" if drs else ""), "kopf-managed")
+            for part in pinned_parts(x, d["prefix"], True)}
+    verbose = bool(xdesc and xdesc[0]["t"] == "ann" and xdesc[0]["verbose"])
+    server = SightServer(sc)
+    kind = truth["kind"]
+    resource = references.Resource(group="apps", version="v1", plural=kind.lower() + "s", kind=kind, singular=kind.lower(),
+                                   namespaced=True, preferred=True, verbs=frozenset({"list", "watch", "patch"}))
+    settings = configuration.OperatorSettings()
+    tags = out.tags
+    tags.update({"sights": True, "shape": sc.get("shape"), "band": sc.get("band"), "idshape": sc.get("idshape"), "drs": drs, "kind": kind,
+                 "items_kind": sc.get("items_kind"), "lives": len(sc["lives"])})
+    state: dict[str, Any] = {"rec": None, "ess": None, "stored_at": None, "dstored_at": None, "first_names": None, "n": 0, "via": []}
+    api = watching.api
+    saved = (api.get, api.stream)
+    api.get, api.stream = server.get, server.stream          # attribute-level, restored below
+    try:
+        for li, ops in enumerate(sc["lives"]):
+            server.queue.clear()        # a freshly started operator watches from the version of ITS listing on
+            pause = asyncio.get_running_loop().create_future()
+            gen = watching.continuous_watch(settings=settings, resource=resource, namespace=None, operator_pause_waiter=pause)
+            try:
+                listed = None
+                async for ev in gen:
+                    if isinstance(ev, watching.Bookmark):
+                        break
+                    if ev["object"].get("metadata", {}).get("uid") == "uid-target":
+                        listed = ev["object"]
+                if listed is None:
+                    out.fail("the object in the cluster is not among the objects listed when the operator starts", {"site": "list_objs", "shape": "listed object missing"})
+                    return
+                sight, how = listed, "listed"
+                for oi, op in enumerate(ops):
+                    patch = judge_sight(sc, out, S, D, ann_leaves, xann, want_names, own, verbose, state, server, bodies, patches,
+                                        sight, f"life {li + 1}, {how}", op)
+                    if not patch:
+                        patch = {"metadata": {"labels": {"tick": "%d-%d" % (li, oi)}}}      # somebody else edits the object
+                    server.apply(patch)
+                    if oi + 1 < len(ops):
+                        ev = await gen.__anext__()
+                        sight, how = ev["object"], "watch-event " + str(ev["type"])
+            finally:
+                await gen.aclose()
+                pause.cancel()
+        # what is there at the end, read once more by a freshly started operator
+        server.queue.clear()
+        pause = asyncio.get_running_loop().create_future()
+        gen = watching.continuous_watch(settings=settings, resource=resource, namespace=None, operator_pause_waiter=pause)
+        try:
+            async for ev in gen:
+                if isinstance(ev, watching.Bookmark):
+                    break
+                if ev["object"].get("metadata", {}).get("uid") == "uid-target":
+                    judge_sight(sc, out, S, D, ann_leaves, xann, want_names, own, verbose, state, server, bodies, patches,
+                                ev["object"], "final life, listed", "look")
+        finally:
+            await gen.aclose()
+            pause.cancel()
+    finally:
+        api.get, api.stream = saved
+    tags["sight_path"] = "+".join(state["via"][:6])
+    out.tags["listings"] = [[sent, jsonable(items)] for sent, items in server.lists[:2]]
+
+
+def judge_sight(sc, out, S, D, ann_leaves, xann, want_names, own, verbose, state, server, bodies, patches, sight, where, op):
+    """One sight of the object (a body made by kopf's own listing / watching): judged from the property text, then `op` is done on it."""
+    k = sc["id"]
+    Body = bodies.Body
+    via = "L" if "listed" in where else "W"
+    state["n"] += 1
+    # identical names at every sight, and the names the persisted format gives to THIS object (kind & owners as the cluster has them)
+    names = [list(l.make_keys(k, body=Body(sight))) for l in ann_leaves]
+    if state["first_names"] is None:
+        state["first_names"] = (names, where)
+    if names != state["first_names"][0]:
+        out.fail(f"annotation names of handler {k!r} on the same {server.obj['kind']} differ between two sights of it: {state['first_names'][0]} "
+                 f"({state['first_names'][1]}) vs {names} ({where})", {"site": "make_keys", "shape": "names differ across restarts"})
+    elif [sorted(x) for x in names] != [sorted(x) for x in want_names]:
+        out.fail(f"annotation names of handler {k!r} on a {server.obj['kind']} ({where}) are {names}, the persisted format gives {want_names}",
+                 {"site": "make_keys", "shape": "names of the object as seen differ from the names of the object as stored"})
+    # the record / state persisted last (at whatever sight, in whatever life) is what is read now
+    f = call(S.fetch, key=k, body=Body(sight))
+    got = f[1] if f[0] == "ok" else f
+    want = state["rec"]
+    if want is None:
+        if got is not None:
+            out.fail(f"handler {k!r} has no record on the object ({where}; {state['stored_at'] or 'never stored'}) but reads {got!r}",
+                     {"site": "fetch", "shape": "reads a record that is not its own (across sights)"})
+    elif f[0] != "ok" or got is None or differs(drop_nulls(jsonable(got)), jsonable(drop_nulls(want))) or (verbose and differs(jsonable(got), jsonable(want))):
+        out.fail(f"the record persisted for {k!r} ({state['stored_at']}) is not read back at a later sight of the object ({where}): "
+                 f"stored {drop_nulls(want)!r}, fetched {got!r}", {"site": "store/fetch", "shape": "round-trip mismatch across sights"})
+    fd = call(D.fetch, body=Body(sight))
+    if state["ess"] is not None and differs(jsonable(fd), ["ok", state["ess"]]):
+        out.fail(f"the last-handled state persisted ({state['dstored_at']}) is not read back at a later sight ({where}): stored {state['ess']!r}, fetched {fd!r}",
+                 {"site": "diffbase store/fetch", "shape": "round-trip mismatch across sights"})
+    if state["stored_at"] is not None or state["dstored_at"] is not None:
+        state["via"].append(via)
+    # the operation of this step, on the body as kopf made it
+    p = patches.Patch()
+    before = copy.deepcopy(server.obj)
+    if op in ("store-a", "store-b"):
+        rec = rec_dict(sc["records"][0 if op == "store-a" else 1])
+        r = call(S.store, key=k, record=copy.deepcopy(rec), body=Body(sight), patch=p)
+        state.update(rec=rec, stored_at=f"stored at {where}")
+    elif op == "purge":
+        r = call(S.purge, key=k, body=Body(sight), patch=p)
+        state.update(rec=None, stored_at=f"purged at {where}")
+    elif op in ("dstore-1", "dstore-2"):
+        ess = copy.deepcopy(sc["essences"][0 if op == "dstore-1" else 1])
+        r = call(D.store, body=Body(sight), patch=p, essence=copy.deepcopy(ess))
+        state.update(ess=ess, dstored_at=f"stored at {where}")
+    else:
+        return None
+    state["via"].append(op[0].upper() + via)
+    if r[0] != "ok":
+        out.fail(f"{op} of {k!r} raises {r[1]} on a well-formed object ({where})", {"site": op.split("-")[0], "shape": "operation raises on a well-formed object"})
+        return None
+    pj = jsonable(dict(p))
+    after = merge_patch(before, pj)
+    a0, a1 = before["metadata"].get("annotations") or {}, after.get("metadata", {}).get("annotations") or {}
+    moved = sorted(n for n in set(a0) | set(a1) if n not in own and a0.get(n, MISSING) != a1.get(n, MISSING))
+    roots = {d[f][0] for d in expected_leaves(sc["storage"]) + expected_dleaves(sc["dstorage"]) if d["t"] == "status" for f in ("field", "touch_field") if d.get(f)}
+    if moved or any(differs(before.get(x), after.get(x)) for x in ("spec", "kind", "apiVersion") if x not in roots) \
+            or ("metadata" not in roots and before["metadata"].get("labels") != after["metadata"].get("labels")):
+        out.fail(f"{op} of {k!r} ({where}) changes what is not the handler's own on the object: annotations {moved}" if moved else
+                 f"{op} of {k!r} ({where}) changes spec / labels / kind of the object",
+                 {"site": op.split("-")[0], "shape": "foreign data changed (across sights)"})
+    if op == "purge":
+        left = sorted(n for ns in want_names for n in ns if n in a1)
+        if left:
+            out.fail(f"purge of {k!r} ({where}; {before['kind']}) leaves the handler's own annotations {left} on the object",
+                     {"site": "purge", "shape": "purge incomplete (across sights)"})
+    return pj
+
+
+def run_sights(ctx: Ctx, scs: list[dict], tag: str = "sights") -> None:
+    """In-process (cheap: no driver per history); ONE driver call compares the model of the listing with what list_objs returned."""
+    items: list[tuple[str, Any, Any, Any]] = []
+
+    async def all_of_them() -> list[Out]:
+        outs = []
+        for sc in scs:
+            o = Out()
+            try:
+                with warnings.catch_warnings():
+                    warnings.simplefilter("ignore")
+                    await sight_history(sc, o)
+            except Exception as e:      # noqa: BLE001 -- a crash of the code under test on a well-formed history is a finding, not a harness error
+                o.fail(f"a sight history crashes: {type(e).__name__}: {e}", {"site": "sights", "shape": "crash on a well-formed history"})
+            outs.append(o)
+        return outs
+
+    for sc, o in zip(scs, asyncio.run(all_of_them())):
+        t = o.tags
+        key = {"sights": [t.get("shape"), t.get("band"), t.get("drs"), t.get("kind"), t.get("items_kind"), t.get("sight_path")]}
+        ctx.case(key=key, nontrivial=bool(t.get("drs")) or t.get("items_kind") != "all", sample={"id": sc["id"][:40], "lives": sc["lives"], "kind": t.get("kind")})
+        ctx.traces += 1
+        ctx.count("sights_kind", str(t.get("kind")))
+        ctx.count("sights_drs", str(t.get("drs")))
+        ctx.count("sights_items_kind", str(t.get("items_kind")))
+        ctx.count("sights_path", str(t.get("sight_path")))
+        ctx.count("sights_shape", str(t.get("shape")))
+        for what, sig in o.fails:
+            per = ctx.extra.setdefault("_per_signature", {})
+            per[json.dumps(sig, sort_keys=True)] = per.get(json.dumps(sig, sort_keys=True), 0) + 1
+            ctx.oracle_fail(what, {"kind": "sights", "scenario": sc}, sig)
+        for sent, got in (t.get("listings") or []):
+            items.append(("C16 listed", ["ok", got], ["C16.listed", sent], {"kind": "sights", "scenario": sc}))
+    if items and tag != "search":
+        ask_compare(ctx, items)
+
+
+def gen_run_sights(ctx: Ctx, n: int, tag: str = "sights") -> None:
+    import random
+    rng = random.Random(f"{tag}-{ctx.seed}")
+    run_sights(ctx, [gen_sights(rng) for _ in range(n)], tag)
+
+
 # ---- corpus / special cases ---------------------------------------------------------------------
 def run_case(ctx: Ctx, data: dict, with_driver: bool = True) -> None:
     kind = data.get("kind")
@@ -2428,6 +2738,8 @@ def run_case(ctx: Ctx, data: dict, with_driver: bool = True) -> None:
         reserved_case(ctx, data)
     elif kind == "names-request":
         names_request_case(ctx, data)
+    elif kind == "sights":
+        run_sights(ctx, [data["scenario"]])
     else:
         raise ValueError(f"unknown corpus/replay kind {kind!r}")
 
@@ -2856,6 +3168,7 @@ def run(ctx: Ctx) -> None:
     run_pool(ctx, ctx.budget(5000, 200000), True, "gen")
     run_pool(ctx, ctx.budget(1200, 30000), True, "seq")
     run_pool(ctx, ctx.budget(100, 3000), False, "big")      # records / essences of 1 KiB .. 128 KiB: oracle only
+    gen_run_sights(ctx, ctx.budget(400, 6000))               # bodies from kopf's real listing / watching, several operator lives
     report_sfx(ctx)
     ctx.extra.pop("_keys_round", None)
     ctx.extra["oracle_failures_by_signature"] = ctx.extra.pop("_per_signature", {})
@@ -2866,6 +3179,7 @@ def search(ctx: Ctx, broken: list) -> None:
     run_pool(ctx, ctx.budget(5000, 200000) * (10 if ctx.tier == "quick" else 2), False, "search")
     run_pool(ctx, ctx.budget(1200, 30000) * (10 if ctx.tier == "quick" else 2), False, "seqsearch")
     run_pool(ctx, ctx.budget(100, 3000) * (5 if ctx.tier == "quick" else 2), False, "bigsearch")
+    gen_run_sights(ctx, ctx.budget(400, 6000) * (5 if ctx.tier == "quick" else 2), "search")
     ctx.extra["oracle_failures_by_signature"] = ctx.extra.pop("_per_signature", {})
 
 
